@@ -497,7 +497,7 @@ def op_from_json(j: list) -> tuple:
 		return tuple(tup(y) for y in x) if isinstance(x, list) else x
 	k = j[0]
 	if k == 'new' and j[1] == 'lazy':
-		return ('new', 'lazy', [(s, tup(inj)) for s, inj in j[2]])
+		return ('new', 'lazy', [(s, tup(inj)) for s, inj in j[2]], *j[3:])
 	if k in ('bind', 'rebind'):
 		return (k, j[1], tuple(j[2]), j[3])
 	if k in ('unbind', 'resolve', 'can'):
@@ -526,29 +526,56 @@ def run_real(w: World, ops: list[tuple]) -> list[str]:
 			return f'{SCRATCH_NAME}.{w.by_name[name]}'
 		return f'{SCRATCH_NAME}.nope{name}' if target == 'attr' else f'c19_nomod{name}.f'
 
+	passed: list[list[Any]] = []  # [mapping object handed to LazyDI.instantiate, snapshot of its items at that time]
+
 	def created(di: Any) -> str:
-		# the law "a container made by _clone / combine / instantiate owns its dictionaries" is observed right here
+		# the law "a container made by _clone / combine / instantiate owns its dictionaries" is observed right here: no private
+		# dictionary of the new container is a dictionary of another container, nor a mapping the caller passed in
 		conts.append(di)
 		shared = aliased_with(di, conts)
+		for name, d in private_dicts(di):
+			for j, (arg, _) in enumerate(passed):
+				if d is arg:
+					shared.append(f'{name.split("__")[-1]}@arg{j}')
 		return f'c{len(conts) - 1}' + (f'!shares-dict:{",".join(shared)}' if shared else '')
 
 	try:
 		with budget(CASE_BUDGET_S):
-			_run_real_ops(w, ops, conts, out, injector, created)
+			_run_real_ops(w, ops, conts, out, injector, created, passed)
 	except BudgetExceeded:
 		out.extend(['Timeout'] * (len(ops) - len(out)))
 	return out
 
 
-def _run_real_ops(w: World, ops: list[tuple], conts: list[Any], out: list[str], injector: Any, created: Any) -> None:
+def same_items(d: dict, snap: list[tuple[Any, Any]]) -> bool:
+	try:
+		items = list(d.items())
+		return len(items) == len(snap) and all(k1 == k2 and (v1 is v2 or isinstance(v1, str) and isinstance(v2, str) and v1 == v2)
+			for (k1, v1), (k2, v2) in zip(items, snap))
+	except Exception:  # noqa: BLE001
+		return False
+
+
+def _run_real_ops(w: World, ops: list[tuple], conts: list[Any], out: list[str], injector: Any, created: Any, passed: list[list[Any]]) -> None:
 	from rogw.tranp.lang.di import DI, LazyDI
 
 	for op in ops:
+		_run_real_op(w, op, conts, out, injector, created, passed, DI, LazyDI)
+		# the caller's mappings belong to the caller: whatever happens on any container, they keep the items they were passed with
+		for j, rec in enumerate(passed):
+			if not same_items(rec[0], rec[1]):
+				out[-1] += f'!caller-mapping-changed:arg{j}'
+				rec[1] = list(rec[0].items())
+
+
+def _run_real_op(w: World, op: tuple, conts: list[Any], out: list[str], injector: Any, created: Any, passed: list[list[Any]], DI: Any, LazyDI: Any) -> None:
+	if True:
 		k = op[0]
 		try:
 			if k == 'reset':
 				w.reset()
 				conts.clear()
+				passed.clear()
 				out.append('ok')
 			elif k == 'raw':
 				out.append('bad-op')
@@ -556,7 +583,13 @@ def _run_real_ops(w: World, ops: list[tuple], conts: list[Any], out: list[str], 
 				if op[1] == 'di':
 					out.append(created(DI()))
 				else:
-					out.append(created(LazyDI.instantiate({w.sym_path(s): injector(inj) for s, inj in op[2]})))
+					defs = {w.sym_path(s): injector(inj) for s, inj in op[2]}
+					# ('new', 'lazy', defs, 'same', j): the very mapping object of the j-th instantiate of this case is passed again
+					if len(op) >= 5 and op[3] == 'same' and op[4] < len(passed) and same_items(defs, passed[op[4]][1]):
+						defs = passed[op[4]][0]
+					else:
+						passed.append([defs, list(defs.items())])
+					out.append(created(LazyDI.instantiate(defs)))
 			elif k in ('clone', 'combine') and any(i >= len(conts) for i in op[1:]):
 				out.append('bad-op')
 			elif k == 'clone':
@@ -792,9 +825,18 @@ def gen_case(w: World, rng: random.Random, max_ops: int, search: bool) -> list[t
 	xid = [0]
 	profile = rng.choice(['mixed', 'mixed', 'invoke', 'combine', 'lazy'])
 
+	mappings: list[list] = []  # the definitions of every `new lazy` that passed a fresh mapping object, in order
+
 	def emit(op: tuple) -> None:
+		if op[0] == 'new' and op[1] == 'lazy' and len(op) == 3:
+			mappings.append(op[2])
 		ops.append(op)
 		ref.step(op)
+
+	def again() -> None:
+		# several containers from ONE mapping object (e.g. a module-level DEFINITIONS dict)
+		j = rng.randrange(len(mappings))
+		emit(('new', 'lazy', mappings[j], 'same', j))
 
 	def rsym(c: int | None = None, want_bound: bool | None = None) -> tuple[int, bool]:
 		k = rng.choice(NESTED_SYMS) if rng.random() < 0.3 else rng.randrange(NSYM)
@@ -828,7 +870,9 @@ def gen_case(w: World, rng: random.Random, max_ops: int, search: bool) -> list[t
 		return ('n', rng.randrange(3), rng.choice(['attr', 'mod']))
 
 	def new_cont() -> None:
-		if rng.random() < (0.7 if profile == 'lazy' else 0.45):
+		if mappings and rng.random() < 0.35:
+			again()
+		elif rng.random() < (0.7 if profile == 'lazy' else 0.45):
 			syms = rng.sample(ALLSYMS if rng.random() < 0.3 else range(NSYM), rng.randint(0, 4))
 			emit(('new', 'lazy', [(s, rinj()) for s in syms]))
 		else:
@@ -886,12 +930,43 @@ def gen_case(w: World, rng: random.Random, max_ops: int, search: bool) -> list[t
 
 	def scenario() -> None:
 		"""structured prefixes: history shapes the property names explicitly (DESIGN §5 C19, CONVENTIONS 15/16)"""
-		kind = rng.choice(['invoke-combine-invoke', 'generic-alias', 'combine-after-resolve', 'clone-lazy', 'production-shape', 'none', 'none'])
+		kind = rng.choice(['invoke-combine-invoke', 'generic-alias', 'combine-after-resolve', 'clone-lazy', 'production-shape', 'shared-mapping', 'none', 'none'])
 		lazy = rng.random() < 0.5
 		if kind == 'none':
 			new_cont()
 			if rng.random() < 0.5:
 				new_cont()
+			return
+		if kind == 'shared-mapping':
+			# siblings instantiated from one mapping object; what one of them binds / unbinds / materialises is its own business
+			defs = [(s, rinj()) for s in rng.sample(range(NSYM), rng.randint(0, 3))]
+			emit(('new', 'lazy', defs))
+			j = len(mappings) - 1
+			for _ in range(rng.randint(1, 2)):
+				if len(ref.conts) < MAX_CONTS - 1:
+					emit(('new', 'lazy', defs, 'same', j))
+			n = len(ref.conts)
+			for _ in range(rng.randint(2, 5)):
+				a = rng.randrange(n)
+				b = rng.choice([x for x in range(n) if x != a])
+				s = rsym(a, rng.random() < 0.5)
+				r = rng.random()
+				if r < 0.4:
+					emit(('bind', a, s, rng.choice(LEAF)))
+				elif r < 0.7:
+					emit(('unbind', a, s))
+				elif r < 0.85:
+					emit(('rebind', a, s, rng.choice(LEAF)))
+				else:
+					emit(('resolve', a, s))
+				emit(('can', b, (s[0], False)))
+				if rng.random() < 0.6:
+					emit(('resolve', b, (s[0], False)))
+			if len(ref.conts) < MAX_CONTS:
+				emit(('new', 'lazy', defs, 'same', j))
+				c = len(ref.conts) - 1
+				for s, _ in defs[:2]:
+					emit(('can', c, (s, False)))
 			return
 		emit(('new', 'lazy', [(s, rinj()) for s in rng.sample(ALLSYMS if rng.random() < 0.25 else range(NSYM), rng.randint(0, 3))]) if lazy else ('new', 'di'))
 		if kind == 'invoke-combine-invoke':
@@ -1069,8 +1144,8 @@ def stream_di(ctx: Ctx, w: World) -> Stream:
 	st.note = (f'op sequences (<= {max_ops} ops) over 6 module-level symbol classes (2 generic) + 4 same-named nested / function-local classes (Reader.Setting, Writer.Setting, two local Setting; also used as factories), {len(w.factories)} factories (classes, functions, bound methods, '
 		'callable objects with/without __qualname__, closures and redefinitions sharing a qualified name, two bound methods of one function, lambdas, unannotated parameters, return annotations, a default value, '
 		'factories that raise, return None or return a falsy empty object), remaining arguments incl. subclass instances, '
-		'by-name definitions through a scratch module (incl. missing attribute / missing module), <= 5 containers; '
-		'observations: creation serial + factory + argument identities of resolved/invoked instances, can_resolve, exception enum')
+		'by-name definitions through a scratch module (incl. missing attribute / missing module), several LazyDI containers instantiated from one mapping object, <= 5 containers; '
+		'observations: creation serial + factory + argument identities of resolved/invoked instances, can_resolve, exception enum, and ownership: a new container shares no dictionary object with another container or with a mapping the caller passed, and the caller\'s mappings keep their items')
 	return st
 
 
@@ -1530,7 +1605,15 @@ def first_diff(a: list[str], b: list[str]) -> int:
 	return -1
 
 
-def shrink_for(w: World, ops: list[tuple], key: str | None) -> list[tuple]:
+OWNERSHIP_KEYS = {'shares-dict': 'container-shares-dictionary-object', 'caller-mapping-changed': 'caller-mapping-changed'}
+
+
+def strip_marks(real: list[str]) -> list[str]:
+	"""outputs without the `!…` ownership observations (a dictionary object shared with another container / the caller, a caller's mapping changed)"""
+	return [o.split('!', 1)[0] for o in real]
+
+
+def shrink_for(w: World, ops: list[tuple], key: str | None, behaviour: bool = False) -> list[tuple]:
 	"""ddmin on the op list; candidate sequences whose container numbering breaks are rejected by the predicate itself"""
 	stop_at = time.time() + 20
 
@@ -1540,7 +1623,9 @@ def shrink_for(w: World, ops: list[tuple], key: str | None) -> list[tuple]:
 		real = run_real(w, cand)
 		if 'bad-op' in real:
 			return False
-		if run_ref(w, cand, IDEAL) == real:
+		if key in OWNERSHIP_KEYS.values():
+			return any(f'!{m}' in o for o in real for m, k2 in OWNERSHIP_KEYS.items() if k2 == key)
+		if run_ref(w, cand, IDEAL) == (strip_marks(real) if behaviour else real):
 			return False
 		if key is None:
 			return True
@@ -1584,7 +1669,16 @@ def search_reference(ctx: Ctx, w: World) -> SearchResult:
 			explained, ex = True, ['real-code-timeout']
 		else:
 			explained, ex = exhibited(w, ops[:at + 1], real[:at + 1])
-		if not explained:
+		marks = [k2 for m, k2 in OWNERSHIP_KEYS.items() if any(f'!{m}' in o for o in real)]
+		if marks:
+			# ownership observations get keys of their own; what is left is judged without them (observable cross-talk)
+			bare = strip_marks(real)
+			keys = list(marks)
+			if bare != ideal:
+				at = first_diff(bare, ideal)
+				ok2, ex2 = exhibited(w, ops[:at + 1], bare[:at + 1])
+				keys += ex2 if ok2 else ['unexplained-divergence']
+		elif not explained:
 			keys = ['unexplained-divergence']
 		else:
 			keys = ex
@@ -1598,12 +1692,15 @@ def search_reference(ctx: Ctx, w: World) -> SearchResult:
 			elif name.startswith('corpus:'):
 				small = ops
 			else:
-				small = shrink_for(w, ops[:at + 1] if key == 'unexplained-divergence' else ops, None if key == 'unexplained-divergence' else key)
+				small = shrink_for(w, ops[:at + 1] if key == 'unexplained-divergence' else ops, None if key == 'unexplained-divergence' else key,
+					behaviour=bool(marks) and key == 'unexplained-divergence')
 			sreal = run_real(w, small)
 			sideal = run_ref(w, small, IDEAL)
-			j = first_diff(sreal, sideal)
+			j = first_diff(strip_marks(sreal) if marks and key not in OWNERSHIP_KEYS.values() else sreal, sideal)
 			what = (('RETURN OF A REPAIRED DEFECT: ' + DEVIATION_WHAT[key]) if key in DEVIATION_WHAT
 				else f'an op sequence did not finish on the real containers within {CASE_BUDGET_S}s of CPU time' if key == 'real-code-timeout'
+				else 'a container made by instantiate / _clone / combine holds a dictionary object that another container or the caller holds' if key == 'container-shares-dictionary-object'
+				else 'a mapping passed to LazyDI.instantiate was changed afterwards by an operation on a container' if key == 'caller-mapping-changed'
 				else 'the real container and the reference model disagree (no repaired defect explains it)')
 			res.findings.append(Finding(key=key, what=f'{what}; first seen in {name}: op {j} `{op_line(w, small[j]) if j >= 0 else "?"}` real={sreal[j] if j >= 0 else "?"} reference={sideal[j] if j >= 0 else "?"}',
 				replay={'ops': [op_to_json(o) for o in small], 'op_lines': [op_line(w, o) for o in small], 'real': sreal, 'reference': sideal, 'from': name}))
